@@ -147,8 +147,9 @@ fn main() {
         let gl = grow_at.last().cloned().unwrap_or(0);
         let first = deltas[w..].iter().position(|d| *d > 0).map(|i| (i + w).to_string()).unwrap_or_else(|| "-".to_string());
         lines_out.push(format!(
-            "#case {}\nal calls={} warm={} allocs_after_warm={} max_per_call={} grows_after_warm={} first_alloc_call={} records={} sink={}",
-            ci, deltas.len(), w, after, maxd, gl - g0, first, records, sink % 7
+            "#case {}\nal calls={} warm={} allocs_after_warm={} max_per_call={} grows_after_warm={} first_alloc_call={} records={} sink={} meas={}",
+            ci, deltas.len(), w, after, maxd, gl - g0, first, records, sink % 7,
+            deltas.iter().map(|d| if *d > 0 { '1' } else { '0' }).collect::<String>()
         ));
     }
     let stdout = std::io::stdout();
